@@ -30,6 +30,11 @@
 #   define CDS_MEMBARRIER_CMD_REGISTER_PRIVATE_EXPEDITED    (1<<4)
 #endif
 
+#if defined(KHIZMAX_LIBCDS_VERIF)
+// Verification build: the loop of scan() that collects the hazard pointers is reported to the verification scheduler
+namespace cdsverif { void scan_collect_begin() noexcept; void scan_collect_end() noexcept; }
+#endif
+
 namespace cds { namespace gc { namespace hp { namespace details {
 
     std::atomic<unsigned> shared_var_membar::shared_var_{ 0 };
@@ -328,6 +333,9 @@ namespace cds { namespace gc { namespace hp { namespace details {
         // Search guarded pointers in retired array
         thread_record* pNode = thread_list_.load( atomics::memory_order_acquire );
 
+#   if defined(KHIZMAX_LIBCDS_VERIF)
+        cdsverif::scan_collect_begin();
+#   endif
         {
             retired_ptr dummy_retired;
             while ( pNode ) {
@@ -349,6 +357,9 @@ namespace cds { namespace gc { namespace hp { namespace details {
                 pNode = pNode->next_;
             }
         }
+#   if defined(KHIZMAX_LIBCDS_VERIF)
+        cdsverif::scan_collect_end();
+#   endif
 
         // Move all marked pointers to head of array
         {
@@ -384,6 +395,9 @@ namespace cds { namespace gc { namespace hp { namespace details {
 
         // Stage 1: Scan HP list and insert non-null values in plist
 
+#   if defined(KHIZMAX_LIBCDS_VERIF)
+        cdsverif::scan_collect_begin();
+#   endif
         thread_record* pNode = thread_list_.load( atomics::memory_order_acquire );
 
         while ( pNode ) {
@@ -396,6 +410,9 @@ namespace cds { namespace gc { namespace hp { namespace details {
             }
             pNode = pNode->next_;
         }
+#   if defined(KHIZMAX_LIBCDS_VERIF)
+        cdsverif::scan_collect_end();
+#   endif
 
         // Sort plist to simplify search in
         std::sort( plist.begin(), plist.end());
